@@ -21,7 +21,8 @@ META = {
                   "byte-wise and random cuts, and every proper prefix of each document) with the value compared to the "
                   "specification's; number tokens are compared as exact IEEE bit patterns computed in TLA+ (small dyadic "
                   "tokens) or by a bignum half-ulp test evaluated by TLC on the decoded bits (recorded traces).",
-    "level_note": "Bounded (constants in spec/MC_JsonTextGen_*.cfg, MC_JsonTextXdl_*.cfg, MC_XdlSM*_*.cfg); beyond the bounds only "
+    "level_note": "Open finding NestingBeyondStack: documents nested beyond ~10^4-10^5 levels exhaust the call stack in the recursive "
+                  "Var destructor (probes deeper than 5000 levels are skipped while it is open). Bounded (constants in spec/MC_JsonTextGen_*.cfg, MC_JsonTextXdl_*.cfg, MC_XdlSM*_*.cfg); beyond the bounds only "
                   "the recorded random/mutated inputs apply. Totality and memory safety are observed (ASan/LSan, time limit) on the "
                   "inputs the specification generates or classifies, not decided by the model. Results on malformed input and "
                   "lenient acceptances are left open, as in the property. NUL bytes cannot be passed through the char* interface.",
@@ -54,7 +55,7 @@ def _gen(ctx, spec, cfg, out, timeout, need=(), **kw):
 
 
 GEN_ACTS = ("Number", "Literal", "BeginStr", "StrChar", "EndStr", "Colon", "Begin", "End", "Comma", "Ws")
-DEEP_ACTS = ("DeepBegin", "DeepEnd", "Number", "Literal", "BeginStr", "EndStr")
+DEEP_ACTS = ("DeepBegin", "DeepEnd", "Number", "Literal", "BeginStr", "EndStr", "Probe")
 XDL_ACTS = ("Scalar", "BeginArr", "BeginObj", "Key", "End", "Sep", "Ws")
 SM_STATES = ("NUMBER", "INT", "STRING", "PROPERTY", "IDENTIFIER", "NUMBER_E", "NUMBER_ES", "NUMBER_EV", "NUMBER_DOT", "MINUS",
              "WAIT_SEP", "WAIT_EQUAL", "WAIT_VALUE", "WAIT_PROPERTY", "WAIT_OBJ", "QPROPERTY", "ESCAPE", "ERR", "UNICODECHAR",
@@ -84,9 +85,13 @@ def run(ctx):
     for spec, cfg, need in (("JsonTextGen", "MC_JsonTextGen_" + tier, GEN_ACTS),
                             ("JsonTextGen", "MC_JsonTextGen_deep_" + tier, DEEP_ACTS),
                             ("JsonTextXdl", "MC_JsonTextXdl_" + tier, XDL_ACTS),
-                            ("XdlSMExplore", "MC_XdlSMExplore_" + tier, SM_STATES)):
+                            ("XdlSMExplore", "MC_XdlSMExplore_" + tier, SM_STATES)) + \
+            ((("XdlSMExplore", "MC_XdlSMExplore_all", SM_STATES),) if not ctx.quick else ()):
         cases = os.path.join(ctx.tmp, cfg + ".cases")
-        _gen(ctx, spec, cfg, cases, ctx.pick(600, 3000), need=need)
+        # the walk over the machine's control graph uses a VIEW: one worker keeps the choice of representatives (and with it
+        # the emitted case set) deterministic
+        kw = {"workers": 1} if spec == "XdlSMExplore" and "_all" not in cfg else {}
+        _gen(ctx, spec, cfg, cases, ctx.pick(600, 3000), need=need, **kw)
         ctx.replay(rep, cases, label="R/" + cfg, timeout=ctx.pick(900, 5400))
         os.unlink(cases)
     ctx.exhaustive = True
